@@ -1275,4 +1275,152 @@ theorem uniq_empty : Uniq Track.empty.regs := by
   unfold Uniq
   intro i j r r' hi; simp [Track.empty] at hi
 
+/-! ### a session with one registration and one creation IS the single-creation model -/
+
+theorem runFrom_calls (h : Nat) (hd : Handle) : ∀ (k : Nat) (sst : SSt) (sl : Slot),
+    sst.handles[h]? = some hd → sst.slots[hd.slot]? = some sl →
+    (runFrom sst (List.replicate k (.call h))).2 =
+      (iter (step (callFac hd.reg.sh hd.world hd.fac)) k sl.st).2.map (Out.step hd.slot) := by
+  intro k
+  induction k with
+  | zero => intro sst sl _ _; rfl
+  | succ k ih =>
+    intro sst sl hh hs
+    have hlt := lt_of_getElem? hs
+    have hex : exec sst (.call h) =
+        (setSt sst hd.slot sl (step (callFac hd.reg.sh hd.world hd.fac) sl.st).1,
+         .step hd.slot (step (callFac hd.reg.sh hd.world hd.fac) sl.st).2) := by
+      simp [exec, hh, hs]
+    simp only [List.replicate_succ, runFrom, hex, iter, List.map_cons]
+    congr 1
+    exact ih _ { sl with st := (step (callFac hd.reg.sh hd.world hd.fac) sl.st).1 }
+      (by simpa [setSt] using hh) (by simp [setSt, List.getElem?_set_self hlt])
+
+theorem runFrom_news (t : Nat) (n : String) (user : Cfg) (hasFill : Bool) (i : Nat) : ∀ (k : Nat) (sst : SSt) (sl : Slot),
+    findSlot sst.slots t n = some i → sst.slots[i]? = some sl →
+    (runFrom sst (List.replicate k (.new t n user hasFill))).2 =
+      (iter (step (regNew sl.reg.sh (sl.reg.world user hasFill))) k sl.st).2.map (Out.step i) := by
+  intro k
+  induction k with
+  | zero => intro sst sl _ _; rfl
+  | succ k ih =>
+    intro sst sl hf hs
+    have hlt := lt_of_getElem? hs
+    have hex : exec sst (.new t n user hasFill) =
+        (setSt sst i sl (step (regNew sl.reg.sh (sl.reg.world user hasFill)) sl.st).1,
+         .step i (step (regNew sl.reg.sh (sl.reg.world user hasFill)) sl.st).2) := by
+      simp [exec, hf, hs]
+    simp only [List.replicate_succ, runFrom, hex, iter, List.map_cons]
+    congr 1
+    have hf' : findSlot (setSt sst i sl (step (regNew sl.reg.sh (sl.reg.world user hasFill)) sl.st).1).slots t n = some i := by
+      rw [findSlot_eq] at hf ⊢
+      simp only [setSt, List.map_set]
+      rw [set_same _ _ _ (by rw [List.getElem?_map, hs]; rfl)]
+      exact hf
+    exact ih _ { sl with st := (step (regNew sl.reg.sh (sl.reg.world user hasFill)) sl.st).1 } hf'
+      (by simp [setSt, List.getElem?_set_self hlt])
+
+theorem runFrom_nohandle (h : Nat) : ∀ (k : Nat) (sst : SSt), sst.handles[h]? = none →
+    (runFrom sst (List.replicate k (.call h))).2.filterMap stepOf = [] := by
+  intro k
+  induction k with
+  | zero => intro sst _; rfl
+  | succ k ih =>
+    intro sst hh
+    have hex : exec sst (.call h) = (sst, .noHandle) := by simp [exec, hh]
+    simp only [List.replicate_succ, runFrom, hex, List.filterMap_cons, stepOf]
+    exact ih sst hh
+
+theorem initSt_world (sh : Shape) (w w' : World) (h : w.dflt = w'.dflt) : initSt sh w = initSt sh w' := by
+  unfold initSt; rw [h]
+
+theorem filterMap_stepOf_map (i : Nat) (l : List Step) : (l.map (Out.step i)).filterMap stepOf = l := by
+  induction l with
+  | nil => rfl
+  | cons a l ih => simp [stepOf, ih]
+
+theorem filterMap_stepOf_comp (i : Nat) (l : List Step) : l.filterMap (stepOf ∘ Out.step i) = l := by
+  induction l with
+  | nil => rfl
+  | cons a l ih => simp [stepOf, ih]
+
+/-- one registration, one `NewFactory`, k calls of the factory: the steps are those of `Model.C18.run` -/
+theorem single_factory (r : Reg) (hn : r.name ≠ "") (hreg : registerOk r.sh = true) (e : Bool) (user : Cfg) (hasFill : Bool)
+    (k : Nat) :
+    some ((Pandora.Model.C18Sess.run
+        (.register r :: .newFactory r.ptype r.name e user hasFill :: List.replicate k (.call 0))).outs.filterMap stepOf) =
+      (Pandora.Model.C18.run { r.input (formOf e) user hasFill with k := k }).map (·.steps) := by
+  have hw : initSt r.sh (r.world [] false) = initSt r.sh (r.world user hasFill) := initSt_world _ _ _ rfl
+  have hform : ∀ x : Form, x = formOf e → x ≠ .component := fun x hx => by rw [hx]; exact formOf_ne e
+  have hex1 : exec SSt.empty (.register r) =
+      (⟨addType [] r.ptype, [⟨r, initSt r.sh (r.world user hasFill)⟩], []⟩, .accepted) := by
+    simp [exec, hn, hreg, SSt.empty, findSlot, hw]
+  have hfind : findSlot [(⟨r, initSt r.sh (r.world user hasFill)⟩ : Slot)] r.ptype r.name = some 0 := by simp [findSlot]
+  simp only [Pandora.Model.C18Sess.run, runFrom, hex1, List.filterMap_cons, stepOf]
+  simp only [Pandora.Model.C18.run, runSt, hreg, Bool.not_true, Bool.false_eq_true, if_false, Reg.input]
+  have hst0 : ({ initSt r.sh (r.world user hasFill) with log := [] } : St) = initSt r.sh (r.world user hasFill) :=
+    st0_initSt _ _
+  cases e with
+  | false =>
+    simp only [formOf, Bool.false_eq_true, if_false]
+    cases hc : (regNewFactory r.sh (r.world user hasFill) Form.facNoErr.numOut (initSt r.sh (r.world user hasFill))).2 with
+    | error err =>
+      have hex2 : exec ⟨addType [] r.ptype, [⟨r, initSt r.sh (r.world user hasFill)⟩], []⟩ (.newFactory r.ptype r.name false user hasFill) =
+          (setSt ⟨addType [] r.ptype, [⟨r, initSt r.sh (r.world user hasFill)⟩], []⟩ 0 ⟨r, initSt r.sh (r.world user hasFill)⟩
+            (regNewFactory r.sh (r.world user hasFill) Form.facNoErr.numOut (initSt r.sh (r.world user hasFill))).1,
+           .step 0 ⟨(regNewFactory r.sh (r.world user hasFill) Form.facNoErr.numOut (initSt r.sh (r.world user hasFill))).1.log.reverse, .err err⟩) := by
+        simp [exec, hfind, formOf, hst0, hc]
+      simp only [hex2, stepOf, hc, Option.map_some, Option.some.injEq]
+      rw [runFrom_nohandle 0 k _ (by simp [setSt])]
+    | ok fac =>
+      have hex2 : exec ⟨addType [] r.ptype, [⟨r, initSt r.sh (r.world user hasFill)⟩], []⟩ (.newFactory r.ptype r.name false user hasFill) =
+          ({ setSt ⟨addType [] r.ptype, [⟨r, initSt r.sh (r.world user hasFill)⟩], []⟩ 0 ⟨r, initSt r.sh (r.world user hasFill)⟩
+              (regNewFactory r.sh (r.world user hasFill) Form.facNoErr.numOut (initSt r.sh (r.world user hasFill))).1 with
+              handles := [⟨0, r, fac, false, user, hasFill⟩] },
+           .step 0 ⟨(regNewFactory r.sh (r.world user hasFill) Form.facNoErr.numOut (initSt r.sh (r.world user hasFill))).1.log.reverse, .made⟩) := by
+        simp [exec, hfind, formOf, hst0, hc]
+      simp only [hex2, stepOf, hc, Option.map_some, Option.some.injEq]
+      rw [runFrom_calls 0 ⟨0, r, fac, false, user, hasFill⟩ k _
+        ⟨r, (regNewFactory r.sh (r.world user hasFill) Form.facNoErr.numOut (initSt r.sh (r.world user hasFill))).1⟩
+        (by simp) (by simp [setSt])]
+      simp [filterMap_stepOf_map, filterMap_stepOf_comp, Handle.world]
+  | true =>
+    simp only [formOf, if_true]
+    cases hc : (regNewFactory r.sh (r.world user hasFill) Form.facErr.numOut (initSt r.sh (r.world user hasFill))).2 with
+    | error err =>
+      have hex2 : exec ⟨addType [] r.ptype, [⟨r, initSt r.sh (r.world user hasFill)⟩], []⟩ (.newFactory r.ptype r.name true user hasFill) =
+          (setSt ⟨addType [] r.ptype, [⟨r, initSt r.sh (r.world user hasFill)⟩], []⟩ 0 ⟨r, initSt r.sh (r.world user hasFill)⟩
+            (regNewFactory r.sh (r.world user hasFill) Form.facErr.numOut (initSt r.sh (r.world user hasFill))).1,
+           .step 0 ⟨(regNewFactory r.sh (r.world user hasFill) Form.facErr.numOut (initSt r.sh (r.world user hasFill))).1.log.reverse, .err err⟩) := by
+        simp [exec, hfind, formOf, hst0, hc]
+      simp only [hex2, stepOf, hc, Option.map_some, Option.some.injEq]
+      rw [runFrom_nohandle 0 k _ (by simp [setSt])]
+    | ok fac =>
+      have hex2 : exec ⟨addType [] r.ptype, [⟨r, initSt r.sh (r.world user hasFill)⟩], []⟩ (.newFactory r.ptype r.name true user hasFill) =
+          ({ setSt ⟨addType [] r.ptype, [⟨r, initSt r.sh (r.world user hasFill)⟩], []⟩ 0 ⟨r, initSt r.sh (r.world user hasFill)⟩
+              (regNewFactory r.sh (r.world user hasFill) Form.facErr.numOut (initSt r.sh (r.world user hasFill))).1 with
+              handles := [⟨0, r, fac, true, user, hasFill⟩] },
+           .step 0 ⟨(regNewFactory r.sh (r.world user hasFill) Form.facErr.numOut (initSt r.sh (r.world user hasFill))).1.log.reverse, .made⟩) := by
+        simp [exec, hfind, formOf, hst0, hc]
+      simp only [hex2, stepOf, hc, Option.map_some, Option.some.injEq]
+      rw [runFrom_calls 0 ⟨0, r, fac, true, user, hasFill⟩ k _
+        ⟨r, (regNewFactory r.sh (r.world user hasFill) Form.facErr.numOut (initSt r.sh (r.world user hasFill))).1⟩
+        (by simp) (by simp [setSt])]
+      simp [filterMap_stepOf_map, filterMap_stepOf_comp, Handle.world]
+
+/-- one registration, k calls of `New`: the steps are those of `Model.C18.run` -/
+theorem single_new (r : Reg) (hn : r.name ≠ "") (hreg : registerOk r.sh = true) (user : Cfg) (hasFill : Bool) (k : Nat) :
+    some ((Pandora.Model.C18Sess.run
+        (.register r :: List.replicate k (.new r.ptype r.name user hasFill))).outs.filterMap stepOf) =
+      (Pandora.Model.C18.run { r.input .component user hasFill with k := k }).map (·.steps) := by
+  have hw : initSt r.sh (r.world [] false) = initSt r.sh (r.world user hasFill) := initSt_world _ _ _ rfl
+  have hex1 : exec SSt.empty (.register r) =
+      (⟨addType [] r.ptype, [⟨r, initSt r.sh (r.world user hasFill)⟩], []⟩, .accepted) := by
+    simp [exec, hn, hreg, SSt.empty, findSlot, hw]
+  simp only [Pandora.Model.C18Sess.run, runFrom, hex1, List.filterMap_cons, stepOf]
+  simp only [Pandora.Model.C18.run, runSt, hreg, Bool.not_true, Bool.false_eq_true, if_false, Reg.input, Option.map_some,
+    Option.some.injEq]
+  rw [runFrom_news r.ptype r.name user hasFill 0 k _ ⟨r, initSt r.sh (r.world user hasFill)⟩ (by simp [findSlot]) (by simp)]
+  simp [filterMap_stepOf_map, filterMap_stepOf_comp]
+
 end Pandora.Proofs.C18Sess
